@@ -28,6 +28,15 @@ CHECKS = {
  "C10": (TV, "A", "SMT set equality (exists-forall) between the emitted program and a geometric strand specification (z3)",
          "Same engine for active_edges_connected_crossable / single_cycle_crossable: all segments and both returned arrays free; specification written over the segment graph, never mentioning the split-node construction; frames <= 2x2 quick, <= 3x3 / 2x4 thorough.",
          "reference translator; spec library; z3", "2/C10"),
+ "C12": (TV, "A+B", "SMT validity of per-element equalities between produced trees and the pointwise meaning (z3); CrossHair for four_neighbor_indices",
+         "Each operator form (A op B, A op s, s op A, unary, then, cond; literals; both positions) over 8 shapes incl. empty is applied by the real code; one z3 query per form shows no element can differ from ref(A[i]) op ref(B[i]) for any variable values; helpers over 21 nestings vs Sum(If)/Or/And/distinct; conv2d vs windowed and/or; four_neighbor_indices for unbounded h,w,y,x by CrossHair. Rejections are a finite table (labelled, no solver).",
+         "reference translator; z3; CrossHair soundness for the one B condition", "2/C12"),
+ "C13": ("other", "B", "CrossHair symbolic execution (z3) of the real slice-normalisation kernel against a transcription of CPython's slice semantics",
+         "The kernel (_parse_range + _range_size) is confirmed over all paths for UNBOUNDED size/start/stop (or None) per fixed step in +-1..+-4; gather through the real __getitem__ on small shapes with bounded symbolic keys (explored path-per-value); flatten/reshape and 1-D indexing are finite tables.",
+         "CrossHair 0.0.110 soundness; ref_slice transcription of PySlice_AdjustIndices", "2/C13"),
+ "C14": ("other", "B", "CrossHair symbolic execution (z3) of the real BoolGridFrame accessors over stub arrays, unbounded sizes and coordinates",
+         "__getitem__, cell_neighbors, vertex_neighbors, dual and the edge/point/cell incidence are confirmed over all paths for unbounded h, w, y, x; orderings (all_edges, iteration, _from_grid_frame) are a finite structural table h,w<=4/7; semantic use of the inferred graph is decided in C06/C10.",
+         "CrossHair soundness; stub arrays stand for BoolArray2D", "2/C14"),
 }
 NA = {
  "C18": "SegmentationBuilder2D is BFS/DFS over sets/dicts/deques driven by random: CrossHair did not complete a single path of a one-step harness on a 2x2 board in 10 CPU-minutes (measured, DESIGN 2/C18); a hand SMT model would not be the real code.",
